@@ -523,6 +523,13 @@ class Frame:
                 return args[0]
             if name == "next" and args:
                 return self.elem(args[0])
+            if name == "not" and len(args) == 1 and f.startswith("core::ops::bit"):
+                if is_const(args[0]) and args[0][1] in (0, 1):
+                    return ("c", 1 - args[0][1], None)
+                return ("un", "Not", args[0])
+            if name in ("eq", "ne", "lt", "le", "gt", "ge") and len(args) == 2 and f.startswith("core::cmp") and t.get("self_ty") in (
+                    "usize", "u64", "u32", "u8", "u16", "u128", "i32", "i64", "bool", "&usize", "&u64", "&u32", "&u8"):
+                return fold_bin(name.capitalize(), args[0], args[1])
             if name == "zip" and len(args) == 2:
                 return ("zip", args[0], args[1])
             if name == "enumerate" and args:
